@@ -576,6 +576,12 @@ func replayMain(p Property, path string) int {
 		}
 	}
 	if hit {
+		for _, kf := range loadKnown(p.ID()) {
+			if kf.key == rf.Key {
+				fmt.Printf("KNOWN-FINDING: property=%s key=%s %s (reproduced from %s)\n", p.ID(), kf.key, kf.what, path)
+				return 0
+			}
+		}
 		fmt.Printf("VIOLATION property=%s replay=%s\n", p.ID(), path)
 		return 1
 	}
@@ -714,7 +720,13 @@ func checkMain(p Property, tier string) int {
 			nKnown += len(vs)
 			if !knownPrinted[k] {
 				knownPrinted[k] = true
-				fmt.Printf("KNOWN-FINDING: property=%s key=%s %s (%d instances, e.g. config=%s case=%s)\n", id, k, kf.what, len(vs), vs[0].Config, vs[0].Case)
+				// known findings stay replayable: the first instance is written out like a violation's
+				kpath := filepath.Join(outDir(), "replays", id, "known-"+sanitize(k)+".json")
+				krf := replayFile{Property: id, Tier: tier, Violation: vs[0], Replay: fmt.Sprintf("scripts/run.sh %s replay %s", id, kpath)}
+				if kb, err := json.MarshalIndent(krf, "", " "); err == nil {
+					os.WriteFile(kpath, kb, 0o644)
+				}
+				fmt.Printf("KNOWN-FINDING: property=%s key=%s %s (%d instances, e.g. config=%s case=%s; replay=%s)\n", id, k, kf.what, len(vs), vs[0].Config, vs[0].Case, kpath)
 			}
 			continue
 		}
